@@ -268,6 +268,34 @@ func combGrid(c *Ctx) []combIn {
 			add("Unrank", fmt.Sprint(rk), fmt.Sprint(k))
 		}
 	}
+	// ranks that are exact sums of one or two binomials, C(l,k) and C(l,k)+C(l2,k-1): the ranks of {0..k-2,l} and {0..k-3,l2,l}; the
+	// residue reaches 0 while coefficients close to the top of the int range are still in play (aimed with math/big, judged by the acceptor)
+	maxInt := big.NewInt(math.MaxInt64)
+	for k := 4; k <= 64; k++ { // k <= 3 would need elements beyond 10^6: Unrank walks up to the element linearly (feasibility bound of DESIGN 6)
+		top := int64(k)
+		for new(big.Int).Binomial(top+1, int64(k)).Cmp(maxInt) <= 0 {
+			top++
+		}
+		for _, l := range []int64{top, top - 1, (top + int64(k)) / 2, int64(k) + 1} {
+			if l < int64(k) {
+				continue
+			}
+			b := new(big.Int).Binomial(l, int64(k))
+			add("Unrank", b.String(), fmt.Sprint(k))
+			if b.Sign() > 0 {
+				add("Unrank", new(big.Int).Sub(b, big.NewInt(1)).String(), fmt.Sprint(k))
+			}
+			for _, l2 := range []int64{l - 1, int64(k) - 1 + (l-int64(k))/2} {
+				if l2 < int64(k)-1 || l2 >= l {
+					continue
+				}
+				sum := new(big.Int).Add(b, new(big.Int).Binomial(l2, int64(k)-1))
+				if sum.Cmp(maxInt) <= 0 {
+					add("Unrank", sum.String(), fmt.Sprint(k))
+				}
+			}
+		}
+	}
 	add("Unrank", "50000000000000", "2")
 	add("Unrank", "3500000000001", "2")
 	// Rank: seeded increasing sequences, small and large elements
